@@ -32,6 +32,7 @@ func C06_seq() {
 	noFlush := w.noFlush
 	steps := 2 + vTier()
 	var accepted []byte
+	explicitFragments := 0
 	for s := 0; s < steps; s++ {
 		switch vChoose("kind", 4) {
 		case 0:
@@ -46,16 +47,16 @@ func C06_seq() {
 			vAssert(vAnd(err == nil, int(k) == len(data)), "seq.readfrom_ok")
 			accepted = append(accepted, data...)
 		case 2:
+			explicitFragments++
 			vAssert(w.FlushFragment() == nil, "seq.flushfragment_ok")
 		case 3:
 			w.Grow(vChoose("grow", 9))
 		}
 		fs, ok := vParseFrames(dst.all)
 		vAssert(ok, "seq.whole_frames_at_call_boundary")
-		if noFlush && ok {
-			explicit := 0
-			_ = explicit
-			_ = fs
+		if noFlush && ok && explicitFragments == 0 {
+			// with automatic flushing disabled plain writes send nothing until the final flush
+			vAssert(len(fs) == 0, "seq.noflush_sends_nothing_before_flush")
 		}
 	}
 	written := len(accepted) > 0 || w.dirty
@@ -70,6 +71,9 @@ func C06_seq() {
 		return
 	}
 	vAssert(len(fs) >= 1, "seq.at_least_one_frame")
+	if noFlush && explicitFragments == 0 {
+		vAssert(len(fs) == 1, "seq.noflush_whole_message_is_one_frame")
+	}
 	var sent []byte
 	for i, f := range fs {
 		wantOp := byte(0)
